@@ -119,6 +119,34 @@ CFGS = {
                         "fixed": {"cosmo": {"om": 0.3}}, "center": [70.0, 1.0], "width": [3.0, 0.05]},
 }
 
+# configurations used by the names-in-vector-order check only (every block of the sampling vector populated: cosmology,
+# lens, kinematics, source magnitudes, line-of-sight populations)
+NAME_CFGS = {
+    "flcdm_sne_los": {"cosmology": "FLCDM", "lenses": 1,
+                      "model": {"sne_apparent_m_sampling": True, "sne_distribution": "GAUSSIAN", "los_sampling": True,
+                                "los_distributions": ["GAUSSIAN"]},
+                      "lower": {"cosmo": {"h0": 50}, "source": {"mu_sne": 15.0, "sigma_sne": 0.0}, "los": [{"mean": -0.1, "sigma": 0.01}]},
+                      "upper": {"cosmo": {"h0": 100}, "source": {"mu_sne": 30.0, "sigma_sne": 2.0}, "los": [{"mean": 0.1, "sigma": 0.2}]},
+                      "fixed": {"cosmo": {"om": 0.3}}, "center": [70.0, 22.0, 0.5, 0.02, 0.05], "width": [3.0, 0.5, 0.1, 0.01, 0.01]},
+    "fwcdm_all_blocks": {"cosmology": "FwCDM", "lenses": 2,
+                         "model": {"lambda_mst_sampling": True, "anisotropy_sampling": True, "anisotropy_model": "OM",
+                                   "sne_apparent_m_sampling": True, "sne_distribution": "GAUSSIAN", "los_sampling": True,
+                                   "los_distributions": ["GEV", "GAUSSIAN"]},
+                         "lower": {"cosmo": {"h0": 50, "om": 0.05, "w": -2.0}, "lens": {"lambda_mst": 0.5}, "kin": {"a_ani": 0.1},
+                                   "source": {"mu_sne": 15.0, "sigma_sne": 0.0},
+                                   "los": [{"mean": -0.2, "sigma": 0.02, "xi": -0.3}, {"mean": -0.1, "sigma": 0.01}]},
+                         "upper": {"cosmo": {"h0": 100, "om": 0.8, "w": -0.3}, "lens": {"lambda_mst": 1.5}, "kin": {"a_ani": 5.0},
+                                   "source": {"mu_sne": 30.0, "sigma_sne": 2.0},
+                                   "los": [{"mean": 0.3, "sigma": 0.4, "xi": 0.5}, {"mean": 0.1, "sigma": 0.2}]},
+                         "fixed": {}, "center": [70.0, 0.3, -1.0, 1.0, 1.0, 22.0, 0.5, 0.05, 0.1, 0.1, 0.02, 0.05],
+                         "width": [1.0] * 12},
+}
+
+
+def cfg_of(name):
+    return CFGS[name] if name in CFGS else NAME_CFGS[name]
+
+
 _SAMPLERS = {}
 _PRISTINE = {}
 
@@ -137,12 +165,16 @@ def build_sampler(name, cached=True):
     if cached and name in _SAMPLERS:
         return _SAMPLERS[name]
     from hierarc.Sampling.mcmc_sampling import MCMCSampler
-    c = CFGS[name]
+    c = cfg_of(name)
     kb = {}
-    for blk in ("cosmo", "lens", "kin"):
+    for blk in ("cosmo", "lens", "kin") + (("source",) if "source" in c["lower"] else ()):
         kb["kwargs_lower_" + blk] = dict(c["lower"].get(blk, {}))
         kb["kwargs_upper_" + blk] = dict(c["upper"].get(blk, {}))
         kb["kwargs_fixed_" + blk] = dict(c["fixed"].get(blk, {}))
+    if "los" in c["lower"]:
+        kb["kwargs_lower_los"] = copy.deepcopy(c["lower"]["los"])
+        kb["kwargs_upper_los"] = copy.deepcopy(c["upper"]["los"])
+        kb["kwargs_fixed_los"] = [{} for _ in c["lower"]["los"]]
     extra = {}
     if c.get("cosmo_fixed"):
         from astropy.cosmology import FlatLambdaCDM
@@ -157,16 +189,21 @@ def build_sampler(name, cached=True):
 def user_box(name, s):
     """the prior box as the USER stated it: for every sampled parameter, looked up BY NAME (param_names()) in the
     lower / upper dictionaries handed to the sampler — independent of the library's own bound vectors"""
-    c = CFGS[name]
+    import re
+    c = cfg_of(name)
     lo, hi = [], []
     for nm in s.param_names():
-        for blk in ("cosmo", "lens", "kin"):
+        for blk in ("cosmo", "lens", "kin", "source"):
             if nm in c["lower"].get(blk, {}):
                 lo.append(float(c["lower"][blk][nm]))
                 hi.append(float(c["upper"][blk][nm]))
                 break
         else:
-            raise KeyError("no user bound for %r" % nm)
+            m = re.match(r"^(mean|sigma|xi)_los_(\d+)$", nm)
+            if not (m and "los" in c["lower"]):
+                raise KeyError("no user bound for %r" % nm)
+            lo.append(float(c["lower"]["los"][int(m.group(2))][m.group(1)]))
+            hi.append(float(c["upper"]["los"][int(m.group(2))][m.group(1)]))
     return np.array(lo), np.array(hi)
 
 
@@ -453,8 +490,9 @@ def oracle(name, hist, obs, rng, reeval_max):
 
 def names_oracle(name):
     """parameter names in vector order"""
+    import re
     s = build_sampler(name)
-    c = CFGS[name]
+    c = cfg_of(name)
     names = s.param_names()
     nd = s.param.num_param
     fails = []
@@ -465,6 +503,10 @@ def names_oracle(name):
     kws = s.param.args2kwargs(list(x))
     for i, nm in enumerate(names):
         vals = [d[nm] for d in kws if isinstance(d, dict) and nm in d]
+        m = re.match(r"^(mean|sigma|xi)_los_(\d+)$", nm)
+        if m and isinstance(kws[4], (list, tuple)) and int(m.group(2)) < len(kws[4]) and m.group(1) in kws[4][int(m.group(2))]:
+            # a line-of-sight parameter: <key>_los_<k> names the entry <key> of the k-th population
+            vals.append(kws[4][int(m.group(2))][m.group(1)])
         if len(vals) != 1 or vals[0] != x[i]:
             fails.append(("param_names:order", "name %d = %r does not address component %d of the sampling "
                           "vector (args2kwargs gives %r for %r)" % (i, nm, i, vals, x[i])))
@@ -825,7 +867,7 @@ def run(ctx, res):
     thorough = ctx.tier == "thorough"
     reeval = 10 ** 6 if thorough else 6
     names = list(CFGS)
-    for nm in (names if thorough else ["flcdm2", "flcdm3", "fwcdm4", "flcdm_ab"]):
+    for nm in ((names if thorough else ["flcdm2", "flcdm3", "fwcdm4", "flcdm_ab"]) + list(NAME_CFGS)):
         res.evaluations += 1
         for sig, what in names_oracle(nm):
             res.violation(sig, "%s: %s" % (nm, what), {"cfg": nm, "names_only": True})
